@@ -1,7 +1,21 @@
 """which contracts (engine P) and bounded checks (engine R) decide which property"""
 GL_ALL = ('contracts.grouped_list', None)
 
+ENUM = ('contracts.base_carver', ['combinations_at_index', 'consecutive_combinations', 'consecutive_combinations@top', 'nan_combinations'])
+
 REGISTRY = {
+ 'C01': dict(level='other', P=[ENUM], R=['rtc.c01_carver'],
+             explanation='PROVED (engine P, all inputs): the candidate enumerators are sound and complete w.r.t. the recursive spec InPart (every and only order-contiguous '
+                         'partitions into 2..max_n_mod groups are generated), NaN placements are exactly FlatMap(Block, C). BOUNDED (engine R, not counted as proved): the real '
+                         'BinaryCarver/ContinuousCarver.fit against a brute-force oracle written from the property text (kept iff a viable candidate exists; fitted grouping is viable, '
+                         'a union of base modalities, and attains the maximal measure over all viable candidates; two-stage NaN search) on count-table frames with exact ties / '
+                         'boundary frequencies and random frames.',
+             trusted=['scipy chi2_contingency / kruskal as the statistic of the oracle', 'Discretizer (same parameters) defines the base modalities, as the property states']),
+ 'C02': dict(level='other', P=[ENUM], R=['rtc.c01_carver'],
+             explanation='PROVED (engine P): every candidate ever generated has between 2 and max_n_mod groups, the NaN-alone placement only when len < max_n_mod. '
+                         'BOUNDED (engine R): post-conditions of fit+transform on train and dev (label count, per-label frequency >= min_freq_mod, missing handling, same labels and '
+                         'same rate ranking on dev) on the same frames as C01.',
+             trusted=[]),
  'C13': dict(level='proof', P=[GL_ALL], R=['rtc.c13_grouped_list'],
              explanation='GroupedList: representation invariant WF established by the three constructors and preserved by every mutating method, exact effect of each '
                          'operation on the abstract view (ordered leader -> members), observers equal to their definition over the view: proved for all inputs by engine P '
